@@ -40,6 +40,7 @@ func main() {
 	trace := flag.Bool("trace", false, "trace instructions (single worker)")
 	solver := flag.String("solver", "z3 -in", "solver command")
 	mapperm := flag.Bool("mapperm", false, "explore all map iteration orders")
+	twice := flag.Bool("twice", false, "execute every entry twice per path with the same inputs and require the same outcomes (2-safety, C20)")
 	deadline := flag.Int("deadline", 0, "seconds per entry before truncation (0 = none)")
 	cpuprof := flag.String("cpuprofile", "", "write a CPU profile")
 	emit := flag.String("emit-stubs", "", "write the group's patched dependency sources to this directory, print the overlay mapping as JSON and exit")
@@ -95,7 +96,7 @@ func main() {
 	}
 	sort.Slice(fns, func(i, j int) bool { return fns[i].Name() < fns[j].Name() })
 	for _, f := range fns {
-		cfg := ExploreCfg{Workers: *workers, SolverCmd: strings.Fields(*solver), TimeoutMs: *timeout, MaxPaths: *maxPaths, MapPerm: *mapperm}
+		cfg := ExploreCfg{Workers: *workers, SolverCmd: strings.Fields(*solver), TimeoutMs: *timeout, MaxPaths: *maxPaths, MapPerm: *mapperm, Twice: *twice}
 		if *deadline > 0 {
 			cfg.Deadline = time.Now().Add(time.Duration(*deadline) * time.Second)
 		}
